@@ -114,12 +114,70 @@ def run(rep, tier):
     for p, expect in ident:
         progs.append(p)
         meta.append(("identity", "", "", None, None, expect))
+    # the SAME value on both sides (same variable, a copy, twice as an argument, `x + []`): the answer
+    # is still the one its content gives -- in particular false when the content holds a NaN --,
+    # on the folded path (x constant), the run-time path (x hidden) and inside aggregates;
+    # `!=` is the negation; the value arm of `match` agrees with `==`; `==` is symmetric
+    NAN = ["bin", "/", ["c", ["f", 0]], ["c", ["f", 0]]]
+    selfs = [("int", I(5), True), ("nan", NAN, False), ("arr", ["array", I(1), I(2)], True), ("arr-nan", ["array", NAN], False),
+             ("arr-nan-mixed", ["array", I(1), NAN], False), ("tuple-nan", ["tuple", I(1), NAN], False),
+             ("struct-nan", ["struct", ["a", NAN]], False), ("nested-nan", ["array", ["array", NAN]], False),
+             ("str", S("a"), True), ("empty", ["array"], True), ("struct", ["struct", ["a", I(1)], ["b", S("x")]], True),
+             ("cell", ["mut", None, I(5)], True), ("cell-nan", ["mut", None, NAN], True), ("arr-of-cell", ["array", ["mut", None, NAN]], True),
+             ("fn", ["fn", [], "int", [["stm", ["return", ["expr", I(1)]]]]], True)]
+    hide = ["fndecl", "hd", [["q", "any"]], "any", [["stm", ["return", ["expr", V("q")]]]]]
+    for nm, e, eq in selfs:
+        for route, bind in (("const", ["set", "x", ["expr", e]]), ("hidden", ["set", "x", ["expr", ["call", V("hd"), e]]])):
+            variants = {
+                "x==x": ["bin", "==", V("x"), V("x")],
+                "x!=x": ["bin", "!=", V("x"), V("x")],
+                "copy": None,
+                "tuple": ["bin", "==", ["tuple", V("x"), I(1)], ["tuple", V("x"), I(1)]],
+                "array": ["bin", "==", ["array", V("x")], ["array", V("x")]],
+                "args": ["call", ["fn", [["a", "any"], ["b", "any"]], "bool", [["stm", ["return", ["expr", ["bin", "==", V("a"), V("b")]]]]]], V("x"), V("x")],
+                "match": None,
+            }
+            for vn, ex in variants.items():
+                lines = [hide, bind]
+                if vn == "copy":
+                    lines += [["set", "y", ["expr", V("x")]], ["stm", ["expr", ["bin", "==", V("x"), V("y")]]]]
+                elif vn == "match":
+                    lines += [["stm", ["match", V("x"), ["aval", [V("x")], ["block", ["stm", ["expr", B(True)]]]],
+                                       ["aother", ["block", ["stm", ["expr", B(False)]]]]]]]
+                else:
+                    lines += [["stm", ["expr", ex]]]
+                progs.append(lines)
+                meta.append((f"self.{vn}.{route}", nm, nm, None, None, (not eq) if vn == "x!=x" else eq))
+    # struct equality needs the same field SET on both sides (either order of the operands), cells compare by identity
+    asym = [
+        (["bin", "==", ["struct", ["a", I(1)]], ["struct", ["a", I(1)], ["b", I(2)]]], False),
+        (["bin", "==", ["struct", ["a", I(1)], ["b", I(2)]], ["struct", ["a", I(1)]]], False),
+        (["bin", "!=", ["struct", ["a", I(1)]], ["struct", ["a", I(1)], ["b", I(2)]]], True),
+        (["bin", "==", ["struct"], ["struct", ["a", I(1)]]], False),
+        (["bin", "==", ["struct", ["a", I(1)]], ["struct"]], False),
+    ]
+    for e, expect in asym:
+        progs.append([["stm", ["expr", e]]])
+        meta.append(("struct-fields", "", "", None, None, expect))
+    cellv = [
+        ([["set", "m", ["expr", ["mut", None, I(5)]]], ["stm", ["expr", ["tuple", ["bin", "==", V("m"), I(5)], ["bin", "!=", V("m"), I(5)], ["bin", "==", I(5), V("m")]]]]], "ok (tup (b false) (b true) (b false))"),
+        ([["fndecl", "f", [["x", ["multi", ["mut", "int"], "int"]], ["y", ["multi", ["mut", "int"], "int"]]], ["tup", "bool", "bool"], [
+            ["set", "viamatch", ["match", V("x"), ["aval", [V("y")], ["block", ["stm", ["expr", B(True)]]]],
+                                 ["aother", ["block", ["stm", ["expr", B(False)]]]]]],
+            ["stm", ["return", ["expr", ["tuple", ["bin", "==", V("x"), V("y")], V("viamatch")]]]]]],
+          ["stm", ["expr", ["call", V("f"), ["mut", None, I(5)], I(5)]]]], "ok (tup (b false) (b false))"),
+    ]
+    cell_expect = {}
+    for p, want in cellv:
+        cell_expect[len(progs)] = want
+        progs.append(p)
+        meta.append(("cell-vs-content", "", "", None, None, None))
     rep.exhaustive = True
     mo, io = l7_programs.run_programs(rep, progs, "L4")
     for k, (fname, na, nb, ca, cb, expect) in enumerate(meta):
         rep.count("L4." + fname.split("-")[0])
         got = l7_programs.norm_impl(io[k])
-        want = f"ok (b {'true' if expect else 'false'})"
+        want = cell_expect[k] if k in cell_expect else f"ok (b {'true' if expect else 'false'})"
         val = got.split(" :: ")[0]
         if val != want:
             rep.violations.append({"property": "C19", "lane": "L4",
